@@ -4,6 +4,9 @@ from ..check import Slice, Query
 from ..relational import differs, as_z3, is_ok, is_err, pair_same_outcome
 
 ID = 'C20'
+# Engine B on the rewritten description's emitted code (incl. a #[base] field that is not the first field)
+ENGINE_B = {'template': 't_equiv', 'kinds': ['layout_', 'accessor_', 'dispatch_'], 'max_quick': 10, 'max_thorough': 48,
+            'fixed': [[8, 8, 16, 8, 8, 0, 0, 0, 1, 0, 0, 0, 0, 0, 1], [8, 8, 16, 8, 16, 0, 0, 0, 0, 1, 0, 0, 1, 0, 1]]}
 EXPLANATION = ('Product template t_equiv builds a description and a rewritten description in one symbolic run: two extern-typed fields with '
                'symbolic sizes and a symbolic gap between them, an optional vftable block, and an enum with a symbolic first value.  The '
                'rewrites, each switched by its own flag and applied singly and in every combination: explicit #[address] equal to the '
